@@ -20,6 +20,7 @@ class C09(core.Check):
             'mixing symbols with constants and labels whose names have a symbol as prefix, suffix or infix; a constant carrying '
             'the symbol\'s own name before the definition (use before definition); double definitions across every pair of '
             'sources. Expected bytes = evaluate(substitute(line)). distinct_nontrivial = distinct (feature tag set) signatures.')
+    rule = rule + ' ' + 'Whole-word occurrences between quotes (.cstr/.asciiz/.byte strings) are probed as well.'
     assumptions = ('symbol names have >= 2 characters, contain a non-hex letter and never occur directly after "." / "$" (those '
                    'adjacency cases are not fixed by the statement); a whole-word occurrence between quotes is replaced like any other '
                    '("every whole-word occurrence"), probed only where the replaced text is made of word characters, operators and single blanks',
